@@ -68,7 +68,7 @@ PROPS = {
     },
     "C04": {
         "required_theorems": ["c04_reader_wait_sound", "c04_reader_eof_sound", "c04_nc_wait_sound", "c04_nc_eof_sound",
-                              "c04_writer_wait_sound", "c04_no_discard", "c04_arrives"],
+                              "c04_writer_wait_sound", "c04_no_discard", "c04_arrives", "c04_exact_after_close"],
         "runs": [
             {"sub": "waits", "quick": ["--seed", "{seed}", "--races", 6],
              "thorough": ["--seed", "{seed}", "--races", 200], "timeout": 6000},
